@@ -45,6 +45,11 @@ TRUSTED = ['harness/translate_alias.py: Python-ast -> AliasLang translator (synt
            'Extract/C13.v additionally uses ExtrOcamlNativeString (Coq stdlib) so that Coq strings are OCaml strings; the '
            'extracted checker is only a cross-check of the Python mirror - the tie is coqc re-checking Gen/Alias.v']
 
+# input-representation layer of common.py: off.  This harness compares the very objects it passes before / after the call and
+# tests `result is argument`; it has its own dtype / layout families (int_u, bool_u, bool_part, fortran_d, strided_u, Gen.lay).
+VARIANTS_OFF = True
+VARIANTS_OFF_WHY = 'C13 compares the objects it passes (before/after, identity); int / bool / Fortran / strided inputs are families of its own generator'
+
 NAMED_CONTRACT = ('threshold_absolute', 'threshold_proportional', 'weight_conversion', 'binarize', 'normalize', 'invert')
 
 GEN, GEN_ERROR = None, None
